@@ -251,7 +251,7 @@ pub fn run_worker(spec: &WorkSpec) -> Result<WorkOut, String> {
         "L3" => {
             let def = l3::scen_by_name(&spec.name).ok_or_else(|| format!("unknown scenario {}", spec.name))?;
             l3::install_sched_hook();
-            let out = l3::run_batch(def, spec.seed, spec.first_run, spec.runs, &spec.gate, spec.threads, &spec.over, spec.stop_on_first, spec.max_found, spec.idx_dir.as_deref());
+            let out = l3::run_batch(def, spec.seed, spec.first_run, spec.runs, &spec.gate, spec.threads, &spec.over, spec.stop_on_first, spec.max_found, spec.idx_dir.as_deref(), spec.oplog.as_deref());
             let (faults, probes) = stats_maps(&out.stats);
             Ok(WorkOut {
                 runs: out.runs,
@@ -268,7 +268,7 @@ pub fn run_worker(spec: &WorkSpec) -> Result<WorkOut, String> {
                     .collect(),
                 notes: out.notes,
                 samples: out.samples,
-                log_hash_xor: 0,
+                log_hash_xor: out.hash_xor,
                 sim_time_ms: 0,
             })
         }
@@ -284,6 +284,7 @@ pub fn cmd_worker(spec_json: &str) -> i32 {
             return 2;
         }
     };
+    start_watchdog(30);
     match run_worker(&spec) {
         Ok(out) => {
             println!("RESULT {}", serde_json::to_string(&out).unwrap());
@@ -377,6 +378,8 @@ fn load_replay(path: &str) -> Result<Replay, String> {
 
 /// child side of `replay`
 pub fn cmd_replay_inproc(path: &str) -> i32 {
+    start_watchdog(20);
+    heartbeat();
     let rep = match load_replay(path) {
         Ok(r) => r,
         Err(e) => {
@@ -443,6 +446,10 @@ pub fn cmd_replay(path: &str) -> i32 {
             return 2;
         }
     };
+    if rep.runner == "miri" {
+        let root = self_exe().parent().and_then(|p| p.parent()).and_then(|p| p.parent()).and_then(|p| p.parent()).map(|p| p.to_path_buf()).unwrap_or_else(|| PathBuf::from("/verif"));
+        return replay_under_miri(&root, path, &rep);
+    }
     let o = match Command::new(bin_for_runner(&rep.runner)).arg("replay-inproc").arg(path).output() {
         Ok(o) => o,
         Err(e) => {
@@ -650,11 +657,12 @@ fn triage_crash(root: &Path, bin: &Path, spec: &WorkSpec, how: &str, minimise: b
                     // ddmin with child processes; a dying child counts as still failing
                     let mut budget = if minimise { 150 } else { 0 };
                     let mut n = 2usize;
-                    while rep.ops.len() >= 2 && budget > 0 {
+                    let t_min = Instant::now();
+                    while rep.ops.len() >= 2 && budget > 0 && t_min.elapsed().as_secs() < 120 {
                         let chunk = (rep.ops.len() + n - 1) / n;
                         let mut reduced = false;
                         let mut start = 0;
-                        while start < rep.ops.len() && budget > 0 {
+                        while start < rep.ops.len() && budget > 0 && t_min.elapsed().as_secs() < 120 {
                             let end = (start + chunk).min(rep.ops.len());
                             let mut cand = rep.clone();
                             cand.ops = [&rep.ops[..start], &rep.ops[end..]].concat();
@@ -675,11 +683,29 @@ fn triage_crash(root: &Path, bin: &Path, spec: &WorkSpec, how: &str, minimise: b
                         }
                     }
                     rep.ops_readable = l1::render_ops(def, &rep.ops);
-                } else {
+                } else if spec.layer == "L2" {
                     let def = l2::scen_by_name(&spec.name)?;
                     rep.config = l2::draw_run_cfg(def, spec.seed, r, &spec.over).0;
                     rep.tape = text.lines().filter_map(|l| l.trim().parse().ok()).collect();
                     rep.minimised_from_ops = rep.tape.len();
+                } else {
+                    #[cfg(feature = "l3")]
+                    {
+                        let def = l3::scen_by_name(&spec.name)?;
+                        rep.config = l3::draw_run_cfg(def, spec.seed, r, &spec.over).0;
+                        for l in text.lines() {
+                            if let Some(d) = l.strip_prefix("d ") {
+                                if let Ok(v) = d.trim().parse::<u32>() {
+                                    rep.tape.push(v);
+                                }
+                            } else if let Some(d) = l.strip_prefix("r ") {
+                                if let Ok(v) = d.trim().parse::<u64>() {
+                                    rep.ops.push(Op::new(0, 0, 0, v));
+                                }
+                            }
+                        }
+                        rep.minimised_from_ops = rep.tape.len();
+                    }
                 }
                 if !trace_crashes(root, &rep) {
                     eprintln!("note: crash of run {} ({}) did not reproduce from its logged trace", r, how);
@@ -999,6 +1025,11 @@ pub fn cmd_check(root: &Path, prop: &str, tier: &str, seed: u64, threads: usize)
                     "config_override": item.over.iter().map(|(k, v)| format!("{}={}", k, v)).collect::<Vec<_>>() }),
         );
     }
+    if prop == "C01" && violations == 0 && std::env::var("SIMCTL_ONLY_LAYER").map(|l| l == "L4").unwrap_or(true) {
+        let (v, j) = run_l4(root, tier, seed);
+        violations += v;
+        agg.layers.insert("L4:miri".into(), j);
+    }
     let _ = std::fs::remove_dir_all(&tmp);
 
     for (k, v) in &agg.notes {
@@ -1049,5 +1080,245 @@ pub fn cmd_check(root: &Path, prop: &str, tier: &str, seed: u64, threads: usize)
         1
     } else {
         0
+    }
+}
+
+// ---------------------------------------------------------------- self-tests
+
+/// `simctl selftest determinism`: every world / scenario, the same seeds executed in separate
+/// processes at worker counts 1, 5 and 16; run counts, operation counts and the aggregate of
+/// the per-run event-log hashes must be identical. A divergence is a harness bug (exit 2).
+pub fn cmd_selftest_determinism(runs: u64, seed: u64) -> i32 {
+    let mut targets: Vec<(String, String)> = Vec::new();
+    for w in l1::worlds() {
+        targets.push(("L1".into(), w.name.to_string()));
+    }
+    for s in l2::scenarios() {
+        targets.push(("L2".into(), s.name.to_string()));
+    }
+    #[cfg(feature = "l3")]
+    for s in l3::scenarios() {
+        targets.push(("L3".into(), s.name.to_string()));
+    }
+    let mut bad = 0;
+    let bins: Vec<PathBuf> = {
+        let mut v = vec![self_exe()];
+        let c = bin_for("checked");
+        if c != self_exe() {
+            v.push(c);
+        }
+        v
+    };
+    for (layer, name) in &targets {
+        for bin in &bins {
+            if layer != "L1" && bin != &self_exe() {
+                continue;
+            }
+            let mut sigs: Vec<(u64, u64, u64)> = Vec::new();
+            for threads in [1usize, 5, 16] {
+                let spec = WorkSpec {
+                    layer: layer.clone(),
+                    name: name.clone(),
+                    seed,
+                    first_run: 0,
+                    runs,
+                    gate: "none".into(),
+                    threads,
+                    over: Cfg::new(),
+                    stop_on_first: false,
+                    max_found: 0,
+                    idx_dir: None,
+                    oplog: None,
+                };
+                match spawn_worker(bin, &spec) {
+                    ChildEnd::Ok(o) => sigs.push((o.runs, o.ops, o.log_hash_xor)),
+                    ChildEnd::Crashed(h) => {
+                        eprintln!("harness error: worker died ({}) in {} {}", h, layer, name);
+                        return 2;
+                    }
+                    ChildEnd::Harness(e) => {
+                        eprintln!("harness error: {}", e);
+                        return 2;
+                    }
+                }
+            }
+            let same = sigs.windows(2).all(|w| w[0] == w[1]);
+            println!("determinism {} {} [{}]: {} runs x3 processes (1/5/16 workers): runs={} ops={} hash={:016x} {}", layer, name, bin.parent().and_then(|p| p.file_name()).map(|s| s.to_string_lossy().to_string()).unwrap_or_default(), runs, sigs[0].0, sigs[0].1, sigs[0].2, if same { "identical" } else { "DIVERGED" });
+            if !same {
+                println!("  {:?}", sigs);
+                bad += 1;
+            }
+        }
+    }
+    if bad > 0 {
+        eprintln!("harness error: {} target(s) are not deterministic", bad);
+        2
+    } else {
+        println!("determinism self-test passed for {} targets", targets.len());
+        0
+    }
+}
+
+// ---------------------------------------------------------------- L4: Miri
+
+fn miri_cmd(root: &Path, flags: &str, args: &[&str]) -> Command {
+    let mut c = Command::new("cargo");
+    c.current_dir(root.join("sim"));
+    c.args(["+nightly", "miri", "run", "--offline", "--no-default-features", "--"]);
+    c.args(args);
+    c.env("MIRIFLAGS", flags);
+    c.env("CARGO_NET_OFFLINE", "true");
+    c
+}
+
+pub fn miri_available(root: &Path) -> bool {
+    miri_cmd(root, "", &["help"]).output().map(|o| String::from_utf8_lossy(&o.stderr).contains("usage: simctl")).unwrap_or(false)
+}
+
+/// Runs the Miri tier of C01. Returns (violations, evidence json).
+fn run_l4(root: &Path, tier: &str, seed: u64) -> (u32, serde_json::Value) {
+    if !miri_available(root) {
+        println!("note: cargo +nightly miri is not usable here; the L4 (Miri) cross-check is skipped");
+        return (0, json!({"skipped": "miri not available"}));
+    }
+    let mut violations = 0u32;
+    // (b) real threads on the parking_lot flavours, Miri's seeded scheduler
+    let nseeds = if tier == "thorough" { 64 } else { 12 };
+    let flags = format!("-Zmiri-many-seeds=0..{} -Zmiri-preemption-rate=0.1", nseeds);
+    let o = miri_cmd(root, &flags, &["miri-threads"]).output();
+    let mut thread_ok = 0;
+    match o {
+        Ok(o) => {
+            let out = String::from_utf8_lossy(&o.stdout).to_string() + &String::from_utf8_lossy(&o.stderr);
+            thread_ok = out.matches("thread scenario ok").count();
+            if !o.status.success() || out.contains("Undefined Behavior") || out.contains("FAILED") {
+                let first = out.lines().find(|l| l.contains("Undefined Behavior") || l.contains("FAILED") || l.starts_with("error")).unwrap_or("").to_string();
+                let rep = Replay {
+                    property: "C01".into(),
+                    oracle: "miri-threads".into(),
+                    layer: "L4".into(),
+                    world: "miri-threads".into(),
+                    seed: nseeds,
+                    run_index: 0,
+                    config: Cfg::new(),
+                    ops: vec![],
+                    ops_readable: vec![],
+                    message: format!("Miri reports a problem in the real-thread scenario on the parking_lot flavours: {}", first),
+                    event_log_hash: "miri0000".into(),
+                    minimised_from_ops: 0,
+                    runner: "miri".into(),
+                    tape: vec![],
+                };
+                let path = write_replay(root, &rep);
+                println!("violation: {}", rep.message);
+                println!("VIOLATION property=C01 replay={}", path.display());
+                violations += 1;
+            }
+        }
+        Err(e) => println!("note: could not run miri: {}", e),
+    }
+    // (a) the L1 simulator itself under Miri, a few histories per world, worlds in parallel
+    let per_world: u64 = if tier == "thorough" { 8 } else { 0 };
+    let mut histories = 0u64;
+    if per_world > 0 && violations == 0 {
+        let worlds: Vec<&'static str> = l1::worlds().iter().map(|w| w.name).collect();
+        let results: Vec<(String, bool, String)> = std::thread::scope(|sc| {
+            let hs: Vec<_> = worlds
+                .iter()
+                .map(|w| {
+                    let w = w.to_string();
+                    sc.spawn(move || {
+                        let runs = per_world.to_string();
+                        let sd = seed.to_string();
+                        let o = miri_cmd(root, "", &["l1", "--world", &w, "--runs", &runs, "--threads", "1", "--gate", "C01", "--seed", &sd]).output();
+                        match o {
+                            Ok(o) => {
+                                let out = String::from_utf8_lossy(&o.stdout).to_string() + &String::from_utf8_lossy(&o.stderr);
+                                let ok = o.status.success() && out.contains("found: 0") && !out.contains("Undefined Behavior");
+                                (w, ok, out)
+                            }
+                            Err(e) => (w, true, format!("could not run miri: {}", e)),
+                        }
+                    })
+                })
+                .collect();
+            hs.into_iter().map(|h| h.join().unwrap()).collect()
+        });
+        for (w, ok, out) in results {
+            if ok {
+                histories += per_world;
+                continue;
+            }
+            // find the first history Miri objects to, dump its trace natively
+            let mut culprit = None;
+            for r in 0..per_world {
+                let (rs, sd) = (r.to_string(), seed.to_string());
+                let o = miri_cmd(root, "", &["l1", "--world", &w, "--runs", "1", "--first-run", &rs, "--threads", "1", "--gate", "C01", "--seed", &sd]).output();
+                if let Ok(o) = o {
+                    let t = String::from_utf8_lossy(&o.stdout).to_string() + &String::from_utf8_lossy(&o.stderr);
+                    if !o.status.success() || t.contains("Undefined Behavior") || !t.contains("found: 0") {
+                        culprit = Some(r);
+                        break;
+                    }
+                }
+            }
+            let first = out.lines().find(|l| l.contains("Undefined Behavior") || l.starts_with("error")).unwrap_or("").to_string();
+            let run = culprit.unwrap_or(0);
+            let tr = Command::new(self_exe()).args(["trace", "--world", &w, "--seed", &seed.to_string(), "--run", &run.to_string()]).output();
+            let mut rep: Replay = tr.ok().and_then(|o| serde_json::from_slice(&o.stdout).ok()).unwrap_or(Replay {
+                property: "C01".into(),
+                oracle: "miri".into(),
+                layer: "L1".into(),
+                world: w.clone(),
+                seed,
+                run_index: run,
+                config: Cfg::new(),
+                ops: vec![],
+                ops_readable: vec![],
+                message: String::new(),
+                event_log_hash: "miri0000".into(),
+                minimised_from_ops: 0,
+                runner: "miri".into(),
+                tape: vec![],
+            });
+            rep.message = format!("Miri objects to history {} of world {}: {}", run, w, first);
+            let path = write_replay(root, &rep);
+            println!("violation: {}", rep.message);
+            println!("VIOLATION property=C01 replay={}", path.display());
+            violations += 1;
+            break;
+        }
+    }
+    (violations, json!({"thread_scenario_seeds_ok": thread_ok, "l1_histories_under_miri": histories, "aliasing_model": "Stacked Borrows (default)"}))
+}
+
+/// `simctl replay` of a file recorded by the Miri tier: re-executed under Miri.
+pub fn replay_under_miri(root: &Path, path: &str, rep: &Replay) -> i32 {
+    let abs = std::fs::canonicalize(path).unwrap_or_else(|_| PathBuf::from(path));
+    let o = if rep.layer == "L4" {
+        let flags = format!("-Zmiri-many-seeds=0..{} -Zmiri-preemption-rate=0.1", rep.seed.max(1));
+        miri_cmd(root, &flags, &["miri-threads"]).output()
+    } else {
+        miri_cmd(root, "", &["replay-inproc", &abs.to_string_lossy()]).output()
+    };
+    match o {
+        Err(e) => {
+            eprintln!("harness error: cannot run miri: {}", e);
+            2
+        }
+        Ok(o) => {
+            let out = String::from_utf8_lossy(&o.stdout).to_string() + &String::from_utf8_lossy(&o.stderr);
+            let bad = out.contains("Undefined Behavior") || out.contains("FAILED") || !matches!(o.status.code(), Some(0));
+            for l in out.lines().filter(|l| l.contains("Undefined Behavior") || l.starts_with("replay ") || l.contains("oracle ")).take(6) {
+                println!("{}", l);
+            }
+            if bad {
+                println!("VIOLATION property={} replay={}", rep.property, path);
+                1
+            } else {
+                println!("replay passes under Miri: property {} holds on this trace", rep.property);
+                0
+            }
+        }
     }
 }
